@@ -889,6 +889,16 @@ fn check_pattern(e: &R, texts: &[String], budget: &mut Budget) -> Option<(Value,
     None
 }
 
+/// the rendered pattern of generator coordinates (used by other families as a pattern source)
+pub fn rendered(seed: u64, index: u64) -> String {
+    let mut pat = String::new();
+    render(&regenerate(seed, index), &mut pat);
+    pat
+}
+pub fn fixed_rendered() -> Vec<String> {
+    fixed_patterns().iter().map(|e| { let mut p = String::new(); render(e, &mut p); p }).collect()
+}
+
 /// parse a witness pattern back: witnesses carry the generator coordinates instead
 fn regenerate(seed: u64, index: u64) -> R {
     if seed == u64::MAX {
